@@ -589,6 +589,18 @@ where
                         .with_context(|| format!("blob {} dump failed", blob.name())),
                 )
             }
+            // A delete in a closed blob loads its index into memory and only requests a deferred dump from
+            // the observer, which stops below without running it: complete these dumps here, otherwise
+            // the index file of such a blob stays stale after a clean shutdown
+            let mut blobs = safe.blobs.write().await;
+            for blob in blobs.iter_mut() {
+                res = res.and(
+                    blob.dump()
+                        .await
+                        .map(|_| ())
+                        .with_context(|| format!("blob {} dump failed", blob.name())),
+                )
+            }
         };
 
         // Wait for observer worker shutdown. Locks should be released at this point
